@@ -6,12 +6,39 @@ it holds for every reset state (`cvrp_reset_feasible`) and is preserved by every
 implementation states.  `D` is the distance matrix of the instance.
 -/
 import JumanjiModel.Env.CVRP.Lemmas
+import JumanjiModel.Env.CVRP.Bounds
 open Jm CVRP
 
 /-- a non-trivial feasible state (3 customers, capacity 5): depot → 2 → depot → 1, customer 3 open -/
 def CVRP.exampleState : State :=
   { coords := [[0, 0], [1, 0], [0, 1], [1, 1]], demands := [0, 2, 4, 3], position := 1, capacity := 3,
     visited := [false, true, true, false], trajectory := [0, 2, 0, 1, 0, 0], numVisits := 4 }
+
+namespace Props.C01
+/-- `reset` for every draw of `UniformGenerator` (`n + 1` points of the unit square, demands in [1, max_demand])
+when `max_demand ≤ max_capacity` (checked by the constructor): coordinates, demands/max_capacity,
+capacity/max_capacity ∈ [0,1]; position, trajectory ∈ [0, n]; the two masks ∈ {0,1} -/
+theorem cvrp_reset_obs_in_bounds (c : Cfg) (n : Nat) (maxDemand : Int) (cd : List (List Rat)) (dd : List Int)
+    (hd : validDraw n maxDemand cd dd) (hm : maxDemand ≤ c.maxCap) :
+    Jm.OB.InBounds (obsBounds n) (obsLeaves (reset c n cd dd).2.obs) :=
+  CVRP.reset_obs_in_bounds c n maxDemand cd dd hd hm
+
+/-- every step with an action of the action spec (`a ≤ n`; valid or not, terminal step included), any distance
+matrix and reward function, from a state satisfying `ObsInv c n` -/
+theorem cvrp_step_obs_in_bounds (c : Cfg) (D : Dist) (n : Nat) (s : State) (a : Nat) (ha : a ≤ n)
+    (h : ObsInv c n s) : Jm.OB.InBounds (obsBounds n) (obsLeaves (step c D s a).2.obs) :=
+  CVRP.step_obs_in_bounds c D n s a ha h
+
+/-- `ObsInv c n` is established by `reset` and preserved by every step -/
+theorem cvrp_reset_obsInv (c : Cfg) (n : Nat) (maxDemand : Int) (cd : List (List Rat)) (dd : List Int)
+    (hd : validDraw n maxDemand cd dd) (hm : maxDemand ≤ c.maxCap) : ObsInv c n (reset c n cd dd).1 :=
+  CVRP.reset_obsInv c n maxDemand cd dd hd hm
+theorem cvrp_step_obsInv (c : Cfg) (D : Dist) (n : Nat) (s : State) (a : Nat) (ha : a ≤ n)
+    (h : ObsInv c n s) : ObsInv c n (step c D s a).1 := CVRP.step_obsInv c D n s a ha h
+
+example : ObsInv ⟨5, true, 1⟩ 3 CVRP.exampleState := by decide +kernel
+example : validDraw 2 3 [[0, 0], [1, 1/2], [1/3, 1]] [1, 3, 2] := by decide +kernel
+end Props.C01
 
 namespace Props.C04
 /-- the mask bit of node `a` is set exactly when the rules allow visiting it -/
